@@ -188,6 +188,23 @@ def variants(rng, d, tmp, tag, which=('lazy', 'raw', 'view_of_file', 'big_endian
                     mp = mp.assign_coords({v: lo}) if v in moved.coords else mp.assign({v: lo})
                     ref = ref.assign_coords({v: hi}) if v in moved.coords else ref.assign({v: hi})
             yield 'longitudes held in single precision next to double precision latitudes and bounds', mp, ref, None
+            # stored longitude bounds in single precision too (their values are exact in it), next to double precision latitudes and
+            # latitude bounds that carry digits single precision cannot hold
+            moved2 = gen.shift_coordinates(base, dlat=2.0 ** -30)
+            mp2, changed2 = moved2.copy(deep=True), False
+            for v in list(moved2.variables):
+                a = moved2[v]
+                if a.attrs.get('units') == 'degrees_east' or a.attrs.get('standard_name') == 'longitude' or a.attrs.get('axis') == 'X':
+                    for nm_ in (str(v), a.attrs.get('bounds')):
+                        if nm_ in moved2.variables and moved2[nm_].dtype == numpy.float64:
+                            vals_ = moved2[nm_].values
+                            if numpy.array_equal(vals_.astype('f4').astype('f8'), vals_, equal_nan=True):
+                                lo = xarray.Variable(moved2[nm_].dims, vals_.astype('f4'), moved2[nm_].attrs, moved2[nm_].encoding)
+                                mp2 = mp2.assign_coords({nm_: lo}) if nm_ in moved2.coords else mp2.assign({nm_: lo})
+                                changed2 = changed2 or nm_ != str(v)
+            if changed2:
+                yield ('longitudes and their stored bounds held in single precision (exactly) next to double precision latitudes',
+                       mp2, moved2.copy(deep=True), None)
         if 'narrow_tables' in which and d.family == 'ugrid':
             # integer connectivity tables held in the narrowest signed type that fits (numbers below 127): padding is -1
             nt = base.copy(deep=True)
@@ -214,6 +231,33 @@ def variants(rng, d, tmp, tag, which=('lazy', 'raw', 'view_of_file', 'big_endian
             ref = base.copy(deep=True)
             ref['aaa_first'] = lv['aaa_first'].copy(deep=True)
             yield 'whose first variable is stored x-major (the dataset meets the x dimension before the y dimension)', lv, ref, None
+        if 'explicit_options' in which and d is not None:
+            # every grid dimension carries an index coordinate whose labels are a permutation of the positions (row ids, station
+            # numbers): positions, not labels, say which cell is which
+            lab = base.copy(deep=True)
+            done = []
+            for k_, x in enumerate(sorted({str(x) for dims_ in d.spec['kinds'].values() for x in dims_})):
+                if x in base.coords or x not in base.sizes or x in ('lat', 'lon', 'latitude', 'longitude', 'x', 'y'):
+                    continue
+                labels = list(range(base.sizes[x]))
+                rng.shuffle(labels)
+                if labels == sorted(labels) and len(labels) > 1:
+                    labels = labels[1:] + labels[:1]
+                lab = lab.assign_coords({x: (x, numpy.array(labels, dtype='i4'), {'long_name': f'{x} label'})})
+                done.append(x)
+            if done:
+                yield (f'whose grid dimensions {done} carry index coordinates with permuted labels', lab, base.copy(deep=True), None)
+            # the geometry variables (bounds, connectivity tables, coordinate variables) held as xarray coordinates, as after
+            # set_coords or when a file lists them in a `coordinates` attribute
+            with warnings.catch_warnings():
+                warnings.simplefilter('ignore')
+                # (not the connectivity tables of a mesh: emsarray looks those up among the data variables and refuses - loudly, with
+                # KeyError - a mesh that holds them as coordinates; UGRID files do not do that)
+                gnames = [str(x) for x in base.ems.get_all_geometry_names() if str(x) in base.data_vars and base[str(x)].ndim >= 1
+                          and not str(base[str(x)].attrs.get('cf_role', '')).endswith('_connectivity')]
+            if gnames:
+                yield (f'whose geometry variables {sorted(gnames)[:4]}{"..." if len(gnames) > 4 else ""} are held as xarray coordinates',
+                       base.copy(deep=True).set_coords(gnames), base.copy(deep=True), None)
         if 'explicit_options' in which:
             # the convention made explicitly from its documented keyword options instead of being detected
             import emsarray.conventions.arakawa_c as A
@@ -318,6 +362,13 @@ def leg(ctx, rng, tmp, observe, what, families, which=None, n_per_family=1, prim
             elif fam == 'shoc_standard_thirds':
                 # node coordinates with more digits than single precision holds
                 d = gen.arakawa(rng, nj=rng.randint(2, 4), ni=rng.randint(2, 4), invalid=False, thirds=True)
+            elif fam == 'cf2d_lon_T':
+                # a square curvilinear grid without stored bounds whose longitude is stored (x, y) next to a latitude stored (y, x)
+                n_ = rng.randint(3, 4)
+                d = gen.cf2d(rng, ny=n_, nx=n_, bounds=False, holes='none', invalid=False, lon_transposed=True)
+            elif fam == 'ugrid_nan_node':
+                # a mesh with one more node than its faces use, whose coordinates are missing (a placeholder row)
+                d = gen.ugrid(rng, w=3, h=2, invalid=False, placeholder_node=True)
             elif fam == 'cf1d_refused_bounds':
                 # bounds stored with the pair dimension first: the convention warns and derives the cells from the centres
                 d = gen.cf1d(rng, ny=rng.randint(3, 5), nx=rng.randint(3, 5), bounds=True, bad_bounds='transposed')
@@ -767,6 +818,10 @@ def obs_select(ds):
             continue
         sel = e.select_point(p)
         out.append({str(v): bylabel(sel[v]) for v in sorted(map(str, sel.data_vars))})
+        # geometry variables do not come along with a selection, whatever they are held as
+        gnames = {str(x) for x in e.get_all_geometry_names()} | {str(ds[v].attrs['bounds']) for v in ds.variables if 'bounds' in ds[v].attrs
+                                                                   and str(v) in {str(x) for x in e.get_all_geometry_names()}}
+        out.append(sorted(set(map(str, sel.variables)) & gnames))
     first = next((p for p in probe_points(e, 8) if e.get_index_for_point(p) is not None), None)
     if first is not None:
         many = e.select_points([first, first])
@@ -883,27 +938,28 @@ def obs_transect(ds):
     line = shapely.LineString([(b[0] - 0.5, b[1] + 0.37 * (b[3] - b[1])), ((b[0] + b[2]) / 2, b[1] + 0.61 * (b[3] - b[1])), (b[2] + 0.5, b[3] + 0.25)])
     depth = ds.ems.depth_coordinate.name
     t = c18.transect_mod.Transect(ds, line, depth=depth)
-    segs = [(int(s1.linear_index), [float(x) for pt in s1.intersection.coords for x in pt[:2]]) for s1 in t.segments]
+    segs = [(int(s1.linear_index), canon_index(e.wind_index(int(s1.linear_index))), [float(x) for pt in s1.intersection.coords for x in pt[:2]])
+            for s1 in t.segments]
     prep = t.prepare_data_array_for_transect(ds['tv_depthfield'])
     return {'segments': segs, 'prepared_dims': [str(x) for x in prep.dims], 'prepared': plain(prep.values)}
 
 
 RUNS = {
-    'C01': (obs_index, 'index conversion', gen.FAMILIES + ['ugrid_edges', 'ugrid_edge_faces_only'], None, ('lazy', 'raw', 'view_of_file', 'big_endian', 'narrow_tables')),
+    'C01': (obs_index, 'index conversion', gen.FAMILIES + ['ugrid_edges', 'ugrid_edge_faces_only', 'ugrid_nan_node'], None, ('lazy', 'raw', 'view_of_file', 'big_endian', 'narrow_tables')),
     'C02': (obs_geometry, 'polygons, centres, lookups and spatial index', gen.FAMILIES + ['cf1d_int', 'ugrid_quads1', 'ugrid_square_T', 'ugrid_big_faces', 'cf1d_refused_bounds'], with_data, ('lazy', 'raw', 'view_of_file', 'big_endian', 'transposed_view', 'mixed_precision')),
     'C03': (obs_flatten, 'flatten and wind', gen.FAMILIES, with_data, None),
-    'C04': (obs_geometry, 'polygons and point lookups', gen.FAMILIES + ['cf1d_desc', 'ugrid_quads1', 'cf2d_river', 'ugrid_big_faces', 'cf1d_refused_bounds', 'ugrid_square_T'], None, ('lazy', 'raw', 'view_of_file', 'big_endian', 'mixed_precision')),
+    'C04': (obs_geometry, 'polygons and point lookups', gen.FAMILIES + ['cf1d_desc', 'ugrid_quads1', 'cf2d_river', 'ugrid_big_faces', 'cf1d_refused_bounds', 'ugrid_square_T', 'cf1d_int', 'cf2d_lon_T'], None, ('lazy', 'raw', 'view_of_file', 'big_endian', 'mixed_precision')),
     'C05': (obs_select, 'point selection', gen.FAMILIES + ['ugrid_quads1'], with_data, None),
     'C06': (obs_geometry, 'polygons, bounds and mask', gen.FAMILIES + ['cf1d_desc', 'cf1d_int', 'cf1d_bounds', 'ugrid_quads1', 'ugrid_big_faces', 'cf1d_refused_bounds', 'ugrid_square_T', 'shoc_standard_thirds'], None, ('lazy', 'raw', 'view_of_file', 'big_endian', 'mixed_precision', 'raw_unsigned')),
-    'C07': (obs_clip_mask, 'clip masks', gen.FAMILIES + ['shoc_standard_thirds'], None, ('lazy', 'raw', 'view_of_file', 'big_endian')),
+    'C07': (obs_clip_mask, 'clip masks', gen.FAMILIES + ['shoc_standard_thirds', 'cf2d_lon_T', 'cf1d_int'], None, ('lazy', 'raw', 'view_of_file', 'big_endian')),
     'C10': (obs_topology, 'mesh tables and polygons', ['ugrid', 'ugrid_edges', 'ugrid', 'ugrid_square_T', 'ugrid_big_faces', 'ugrid_edge_faces_only'], None, ('lazy', 'raw', 'view_of_file', 'big_endian', 'narrow_tables', 'mixed_precision', 'raw_unsigned')),
     'C11': (obs_detect, 'convention detection', gen.FAMILIES, None, ('lazy', 'raw', 'view_of_file', 'big_endian')),
     'C12': (obs_floor, 'ocean floor', ['cf1d', 'cf2d', 'shoc_standard', 'ugrid'], with_depth, ('lazy', 'raw', 'view_of_file', 'big_endian', 'transposed_view')),
     'C13': (obs_normalize, 'depth normalisation', ['cf1d', 'shoc_simple', 'ugrid'], with_depth, ('lazy', 'raw', 'view_of_file', 'big_endian')),
-    'C14': (obs_triangulate, 'triangulation', gen.FAMILIES + ['ugrid_quads1', 'ugrid_big_faces'], None, ('lazy', 'raw', 'view_of_file', 'big_endian', 'mixed_precision')),
-    'C15': (obs_export, 'geometry export', gen.FAMILIES + ['cf1d_desc', 'cf1d_bounds', 'ugrid_quads1', 'ugrid_big_faces'], None, ('lazy', 'raw', 'view_of_file', 'big_endian', 'mixed_precision')),
+    'C14': (obs_triangulate, 'triangulation', gen.FAMILIES + ['ugrid_quads1', 'ugrid_big_faces', 'cf1d_int', 'cf2d_lon_T'], None, ('lazy', 'raw', 'view_of_file', 'big_endian', 'mixed_precision')),
+    'C15': (obs_export, 'geometry export', gen.FAMILIES + ['cf1d_desc', 'cf1d_bounds', 'ugrid_quads1', 'ugrid_big_faces', 'cf1d_int', 'cf2d_lon_T'], None, ('lazy', 'raw', 'view_of_file', 'big_endian', 'mixed_precision')),
     'C18': (obs_transect, 'transect pieces and prepared data', ['cf1d', 'cf2d', 'ugrid'], with_depth, ('lazy', 'view_of_file', 'big_endian', 'transposed_view')),
-    'C19': (obs_plot, 'polygon collection', gen.FAMILIES + ['ugrid_quads1'], with_data, None),
+    'C19': (obs_plot, 'polygon collection', gen.FAMILIES + ['ugrid_quads1', 'cf1d_int', 'cf2d_lon_T'], with_data, None),
 }
 
 
